@@ -210,35 +210,7 @@ def make_desc(rnd, kind, force, mixname):
     return c07.gen_data(rnd, kind, force.get("shape", "few"), mix=MIX8 if mixname == "all" else CLEAN, dates=DATES8, force=dict({k: v for k, v in force.items() if k != "shape"}, nf=rnd.choice(c07.NF_PLAIN), cat_nf=False))
 
 
-def extend_in_place(rnd, cd, desc):
-    """Grow an already-used chart-data object through its public API (one more category / data point, one more series) and
-    return the description of what it now holds.  Multi-level categories only gain a series (the tree stays uniform)."""
-    nd = copy.deepcopy(desc)
-    if desc["kind"] != "category":
-        dims = 2 if desc["kind"] == "xy" else 3
-        sers = list(cd)
-        if sers:
-            pt = [c07.number(rnd) for _ in range(dims)]
-            sers[0].add_data_point(*pt)
-            nd["series"][0]["points"].append(pt)
-        pts = [[c07.number(rnd) for _ in range(dims)] for _ in range(rnd.choice([1, 2, 3]))]
-        ser = cd.add_series("reuse-%d" % len(nd["series"]))
-        for pt in pts:
-            ser.add_data_point(*pt)
-        nd["series"].append({"name": "reuse-%d" % len(nd["series"]), "points": pts})
-        return nd
-    cats = nd["cats"]
-    m = len(cats["labels"]) if cats["kind"] != "multi" else len(c07.leaves(cats["tree"]))
-    if cats["kind"] in ("str", "num") and all(len(x["values"]) == m for x in nd["series"]):
-        lab = "West%d" % m if cats["kind"] == "str" else 10 ** 6 + m
-        cd.add_category(lab)
-        cats["labels"].append(lab)
-        m += 1
-        # (values of the existing series are fixed at add_series time: they now end one short of the categories)
-    vals = [c07.number(rnd) for _ in range(m)]
-    cd.add_series("reuse-%d" % len(nd["series"]), vals)
-    nd["series"].append({"name": "reuse-%d" % len(nd["series"]), "values": vals})
-    return nd
+extend_in_place = c07.extend_in_place
 
 
 def run_case(case, acc):
